@@ -68,3 +68,14 @@ impl LuaIndex for JsonSchemaIndex {
         // TODO clear all schema index
     }
 }
+
+/// Verification hook (feature `verif-hooks`, off by default): entry count of every container
+/// of this index, so that tests can observe growth of indexed state.
+#[cfg(feature = "verif-hooks")]
+impl JsonSchemaIndex {
+    pub fn verif_sizes(&self) -> Vec<(&'static str, usize)> {
+        vec![
+            ("schema.schema_files", self.schema_files.len()),
+        ]
+    }
+}
